@@ -316,6 +316,9 @@ func cmdCheck(id string, args []string) int {
 				violations++
 				fmt.Printf("VIOLATION property=%s replay=%s\n", id, dir)
 				fmt.Printf("  harness=%s site=%s msg=%s native=%s\n", spec.Name, f.Site, f.Msg, rr.Outcome)
+			} else if strings.HasPrefix(f.Site, "race:") {
+				fmt.Printf("UNDECIDED property=%s harness=%s site=%s the operations store into pre-existing state but the race detector saw no race natively (%s): concurrency safety not concluded for this harness, dir=%s\n", id, spec.Name, f.Site, rr.Outcome, dir)
+				notes = append(notes, fmt.Sprintf("%s: %s: stores into pre-existing state without an observed race (%s): concurrency half undecided", spec.Name, f.Site, rr.Outcome))
 			} else {
 				fmt.Printf("ENCODING-MISMATCH property=%s harness=%s site=%s engine-model does not reproduce natively (native outcome: %s); not reported as a violation, dir=%s\n", id, spec.Name, f.Site, rr.Outcome, dir)
 				notes = append(notes, fmt.Sprintf("%s: counterexample for %s did not reproduce natively (%s): encoding or model error, nothing claimed for this site", spec.Name, f.Site, rr.Outcome))
